@@ -896,9 +896,10 @@ static const unsigned HSVC[] = {
         VBI_SLICED_WSS_625, VBI_SLICED_CAPTION_625_F1, VBI_SLICED_CAPTION_625_F2, VBI_SLICED_CAPTION_625,
 };
 #define NHSVC ((int)(sizeof HSVC / sizeof *HSVC))
-#define NHLET (2 * NHSVC + 2)          /* add x9, remove x9, decode a blank frame, decode the reference frame */
+#define NHLET (2 * NHSVC + 3)          /* add x9, remove x9, change the field storage mode, decode a blank frame, decode the reference frame */
 static const char *hsvc_name[] = { "B_L10", "B_L25", "B", "VPS", "VPS_F2", "WSS", "CC_F1", "CC_F2", "CC_625" };
 static struct frame HF;         /* reference frame: every service on its own line */
+static struct frame HFI, HBLI; /* both frames stored interlaced (letter "reconfigure": the same parameters with interlaced toggled) */
 static struct frame HBL;        /* the same geometry, every line blank: no record, and the frames after it decode as before
                                    (the decoder predicts lines as blank and skips them for up to 15 frames) */
 
@@ -907,6 +908,7 @@ static const char *hist_letter(int l, void *arg)
         static char b[32]; (void) arg;
         if (l == NHLET - 1) return "decode";
         if (l == NHLET - 2) return "decode blank frame";
+        if (l == NHLET - 3) return "set_sampling_par: sequential <-> interlaced";
         snprintf(b, sizeof b, "%s %s", l < NHSVC ? "add" : "remove", hsvc_name[l % NHSVC]);
         return b;
 }
@@ -928,6 +930,8 @@ static void hist_frame(void)
         if (!frame_render(&HF, 0)) { fprintf(stderr, "C04: cannot render the history reference frame\n"); exit(2); }
         memset(&HBL, 0, sizeof HBL); HBL.gsp = HF.gsp;
         if (!frame_render(&HBL, 0)) { fprintf(stderr, "C04: cannot render the blank history frame\n"); exit(2); }
+        HFI = HF; HFI.raw = NULL; HFI.gsp.interlaced = TRUE; HBLI = HBL; HBLI.raw = NULL; HBLI.gsp.interlaced = TRUE;
+        if (!frame_render(&HFI, 0) || !frame_render(&HBLI, 0)) { fprintf(stderr, "C04: cannot render the interlaced history frames\n"); exit(2); }
 }
 struct hist_exp { unsigned eff; };
 static int hist_expect(void *arg, unsigned granted, struct expect *e)
@@ -950,7 +954,7 @@ static int hist_run(const uint8_t *h, int n, uint64_t hash[2], void *arg)
         char hs[400] = ""; struct ctx c = { "history", 27000000, 1440, 262, VBI_PIXFMT_YUV420, 0, 1, 0, hs };
         const char *entry = legacy ? "vbi_raw_decode after add/remove history" : "vbi3_raw_decoder after add/remove history";
         vbi_raw_decoder lrd; vbi3_raw_decoder *rd;
-        unsigned want = 0, G = 0; int bad = 0;
+        unsigned want = 0, G = 0; int bad = 0, il = 0;
         for (int i = 0; i < n; i++) { strncat(hs, hist_letter(h[i], NULL), sizeof hs - strlen(hs) - 3); strcat(hs, "; "); }
         mc_case(entry, "history: %s", hs);
         if (legacy) {
@@ -973,9 +977,22 @@ static int hist_run(const uint8_t *h, int n, uint64_t hash[2], void *arg)
                         G = legacy ? vbi_raw_decoder_remove_services(&lrd, HSVC[l - NHSVC]) : vbi3_raw_decoder_remove_services(rd, HSVC[l - NHSVC]);
                         if (want & VBI_SLICED_TELETEXT_B) want |= G & VBI_SLICED_TELETEXT_B;      /* while a B level is wanted, the levels reported as decoded are what the caller gets */
                 }
+                else if (l == NHLET - 3) {
+                        /* only the field storage mode changes; the services stay (vbi3: re-added by the call; 0.2: reset drops them, the caller adds them again) */
+                        il ^= 1;
+                        if (legacy) {
+                                vbi_raw_decoder_reset(&lrd); lrd.interlaced = il;
+                                G = want ? vbi_raw_decoder_add_services(&lrd, want, 0) : 0;
+                                rd = (vbi3_raw_decoder *) lrd.pattern;
+                        } else {
+                                vbi_sampling_par sp2 = HF.gsp; sp2.interlaced = il;
+                                G = vbi3_raw_decoder_set_sampling_par(rd, &sp2, 0);
+                        }
+                        c.interlaced = il;
+                }
                 else if (l == NHLET - 2) {
                         memset(out, CANARY, 39 * sizeof *out);
-                        unsigned cnt = legacy ? (unsigned) vbi_raw_decode(&lrd, HBL.raw, out) : vbi3_raw_decoder_decode(rd, out, 36, HBL.raw);
+                        unsigned cnt = legacy ? (unsigned) vbi_raw_decode(&lrd, il ? HBLI.raw : HBL.raw, out) : vbi3_raw_decoder_decode(rd, out, 36, il ? HBLI.raw : HBL.raw);
                         if (!check_records(entry, &c, NULL, 0, out, cnt, 39, want)) bad = 1;
                         mc_count("evaluations", 1);
                         continue;
@@ -985,7 +1002,7 @@ static int hist_run(const uint8_t *h, int n, uint64_t hash[2], void *arg)
                         struct hist_exp x = { G & want }; struct expect e[MAXROWS];
                         int ne = hist_expect(&x, 0, e);
                         memset(out, CANARY, 39 * sizeof *out);
-                        unsigned cnt = legacy ? (unsigned) vbi_raw_decode(&lrd, HF.raw, out) : vbi3_raw_decoder_decode(rd, out, 36, HF.raw);
+                        unsigned cnt = legacy ? (unsigned) vbi_raw_decode(&lrd, il ? HFI.raw : HF.raw, out) : vbi3_raw_decoder_decode(rd, out, 36, il ? HFI.raw : HF.raw);
                         if (!check_records(entry, &c, e, ne, out, cnt, 39, clo)) bad = 1;
                         mc_count("evaluations", 1);
                         continue;
@@ -999,7 +1016,7 @@ static int hist_run(const uint8_t *h, int n, uint64_t hash[2], void *arg)
         /* canonical state: what determines future decoding - service set, jobs, per line job pattern.
          * (slicer thresholds adapt continuously and are left out.) */
         mc_hash hh; mc_hash_init(&hh);
-        mc_hash_u64(&hh, rd->services); mc_hash_u64(&hh, rd->n_jobs); mc_hash_u64(&hh, want); mc_hash_u64(&hh, (unsigned) rd->readjust);
+        mc_hash_u64(&hh, rd->services); mc_hash_u64(&hh, rd->n_jobs); mc_hash_u64(&hh, want); mc_hash_u64(&hh, (unsigned) rd->readjust); mc_hash_u64(&hh, il * 2 + rd->sampling.interlaced);
         for (unsigned j = 0; j < rd->n_jobs; j++) mc_hash_u64(&hh, rd->jobs[j].id);
         if (rd->pattern) mc_hash_add(&hh, rd->pattern, 36 * _VBI3_RAW_DECODER_MAX_WAYS);
         hash[0] = hh.a; hash[1] = hh.b;
@@ -1086,7 +1103,7 @@ int main(int argc, char **argv)
         mc_meta("rule", "one evaluation = one scan line (or one blank frame) through one entry point, compared record by record (count, id, ITU line, payload bits, canary records behind the returned count); distinct = one (waveform, sampling rate) work unit of slicer-grid, one (service set, line layout) unit of layout, one 1/64 payload range of all-payloads, one canonical decoder state of history; every unit decodes at least one transmitted line, refused configurations are counted as outcomes and not as evaluations of the value oracle");
         char gb[1400]; int o = 0;
         for (int w = 0; w < NWAVE; w++) o += snprintf(gb + o, sizeof gb - o, "%s%s %d rates %.3f-40 MHz", w ? ", " : "", SV[WAVE[w]].name, nrates[w], rates[w][0] / 1e6);
-        mc_meta("bound", "GRID, not a continuum. slicer-grid: 11 waveforms x sampling rates {uniform %d kHz steps from the property's minimum to 40 MHz} + {both edges of constant slicer step floor(256*rate/bit_rate), every %s} + 18 standard rates [%s] x samples_per_line {minimum holding the signal, +1, +7, first multiple of 720, 2048, one line period} x offset {earliest, middle, latest keeping the signal inside} x YUV420 with VBI levels at every rate and %d pixel formats (video levels, luma/green only, other channels garbage) at every 4th rate on every %s geometry x %d payloads per frame (all cyclic shifts of de Bruijn B(2,%d), all-0, all-1, single 1, single 0, 00/FF, 55, AA, 0F, walking 1) + blank lines. layout: %d service sets x 5 line layouts x sequential/interlaced x 4 transmit patterns x synchronous(known x unknown start per field)/non-synchronous x strict 0,1,2 x %d rates (13.5 MHz/720, 27 MHz/1440%s) x YUV420 + one rotating format. all-payloads: all 2^16 Caption 625, Caption 525 and all 2^14 WSS payloads at %d rates each. history: depth %d over 20 letters (decode of a blank frame; add/remove of B_L10, B_L25, B, VPS, VPS_F2, WSS, CC_F1, CC_F2, CC_625; decode), both interfaces",
+        mc_meta("bound", "GRID, not a continuum. slicer-grid: 11 waveforms x sampling rates {uniform %d kHz steps from the property's minimum to 40 MHz} + {both edges of constant slicer step floor(256*rate/bit_rate), every %s} + 18 standard rates [%s] x samples_per_line {minimum holding the signal, +1, +7, first multiple of 720, 2048, one line period} x offset {earliest, middle, latest keeping the signal inside} x YUV420 with VBI levels at every rate and %d pixel formats (video levels, luma/green only, other channels garbage) at every 4th rate on every %s geometry x %d payloads per frame (all cyclic shifts of de Bruijn B(2,%d), all-0, all-1, single 1, single 0, 00/FF, 55, AA, 0F, walking 1) + blank lines. layout: %d service sets x 5 line layouts x sequential/interlaced x 4 transmit patterns x synchronous(known x unknown start per field)/non-synchronous x strict 0,1,2 x %d rates (13.5 MHz/720, 27 MHz/1440%s) x YUV420 + one rotating format. all-payloads: all 2^16 Caption 625, Caption 525 and all 2^14 WSS payloads at %d rates each. history: depth %d over 21 letters (decode of a blank frame; set_sampling_par toggling sequential/interlaced; add/remove of B_L10, B_L25, B, VPS, VPS_F2, WSS, CC_F1, CC_F2, CC_625; decode), both interfaces",
                 thorough ? 25 : 250, thorough ? "step value up to 1500 per waveform" : "n-th step value (160 per waveform)", gb,
                 thorough ? NFMT_ALL : NFMT_QUICK, thorough ? "2nd" : "3rd", npay, thorough ? 5 : 3, NSETS, thorough ? 3 : 2, thorough ? ", 35.46895 MHz/2048" : "", thorough ? 4 : 2, thorough ? 5 : 4);
         mc_meta("assume", "sampling rates between grid points, offsets between the three per geometry and samples_per_line values other than the six listed are not covered");
